@@ -2,7 +2,7 @@
    sel_shape_ok, reflected in sel_shape) evaluated on the implementation's results. *)
 From Coq Require Import ZArith QArith List Bool.
 From VL Require Import Prelude.Sx Prelude.PyDict Model.GetNBest Proofs.Shape_proofs.
-From VL Require Import Model.Convert Model.Units Model.Hybrids Model.Elimination.
+From VL Require Import Model.Convert Model.Units Model.Hybrids Model.Elimination Model.ApprovalSimple.
 Import ListNotations.
 Open Scope Z_scope.
 
@@ -51,6 +51,16 @@ Definition u_c08 (k : Z) (a : sx) : sx :=
               | Some d => ok (L (map (fun cs : C * Q => L [of_pos (fst cs); of_Q (snd cs)]) d))
               | None => err E_VALUE
               end
+          | _, _ => bad_input
+          end
+      | _ => bad_input
+      end
+  (* 113: ApprovalToSimpleVotes(split).convert (split votes) -> [[cand votes] ...] in insertion order *)
+  | 3 =>
+      match a with
+      | L [sp; v] =>
+          match as_bool sp, as_aprofile v with
+          | Some sp, Some v => ok (L (map (fun cs : C * Q => L [of_pos (fst cs); of_Q (snd cs)]) (approval_simple sp v)))
           | _, _ => bad_input
           end
       | _ => bad_input
